@@ -423,12 +423,12 @@ ClientIsGet(scn) == scn.cl.form = "connect_get" \/ (scn.cl.form = "rest" /\ Meth
 
 C19(scn, obs) ==
     LET mi == MethodInfo(scn.cl.method) IN
-    (IF scn.cl.form = "connect_get" /\ ~mi.nse THEN
+    (IF scn.cl.form = "connect_get" /\ ~mi.nse /\ scn.cl.rej \in {"", "rpc-get-notnse"} THEN
         (IF obs.ret.n = 0 THEN {} ELSE {"C19.GetRefusedForMethodWithSideEffects"})
         \cup (IF obs.cl.status = 405 THEN {} ELSE {"C19.Refusal405"})
         \cup (IF "POST" \in Range(obs.cl.allow) THEN {} ELSE {"C19.AllowNamesPost"})
      ELSE {})
-    \cup (IF Dispatched(obs) /\ TheDisp(obs).kind = "service" /\ ~TheDisp(obs).same THEN
+    \cup (IF Dispatched(obs) /\ TheDisp(obs).kind = "service" /\ ~TheDisp(obs).same /\ ~Rejected(scn) /\ ~ClientFaulty(scn) THEN
             LET d == TheDisp(obs) IN
             (IF d.http = "GET" /\ d.proto = "connect" =>
                    /\ ClientIsGet(scn) /\ mi.nse /\ StableCodec(d.codec)
